@@ -133,7 +133,7 @@ def execute(case):
                 else:
                     r = "true" if await ff.unregister_active_user(f"E{op[1]}", f"user{op[2]}") else "false"
             except Exception as e:  # noqa: BLE001
-                r = f"err:{type(e).__name__}"
+                r = "err"      # which exception a malformed event raises is not part of what is compared
             listed = [(_num(eid, "E"), _num(uid, "user")) for eid, ed in units.items() for uid in ed.active_users]
             conns = []
             for cid, us in ff.dead_man_switch_user_ids.items():
@@ -169,6 +169,7 @@ def oracle(case) -> list[Failure] | None:
     live: dict[int, set[int]] = {}             # connection -> users whose dead man switch it subscribed to
     reg_at: dict[tuple[int, int], int] = {}    # (unit, user) -> index of the registration in force
     lost_at: dict[int, int] = {}               # user -> index of the latest event that closed their last connection
+    last_live: dict[int, int] = {}             # user -> index of the latest event after which they had a live connection
     found: dict[str, Failure] = {}
 
     def users_live():
@@ -189,6 +190,8 @@ def oracle(case) -> list[Failure] | None:
         elif op[0] == "unreg":
             reg_at.pop((op[1], op[2]), None)
         connected = users_live()
+        for u in connected:
+            last_live[u] = i
         where = {"ops": case["ops"][:i + 1], "units": case["units"]}
         for (e, u) in sorted(set(listed)):
             if (e, u) not in reg_at:
@@ -196,11 +199,14 @@ def oracle(case) -> list[Failure] | None:
                     "listed-but-not-registered", where,
                     f"after event {i} {op}: user {u} listed on unit {e} without a registration in force"))
             elif u not in connected:
-                if lost_at.get(u, -1) > reg_at[(e, u)]:
+                # known finding = exactly: not connected when registering and never connected since.  A user who had a
+                # live connection at or after the registration and is still listed without one is a violation.
+                if last_live.get(u, -1) >= reg_at[(e, u)]:
                     found.setdefault("still-listed-after-last-connection-closed", Failure(
                         "still-listed-after-last-connection-closed", where,
                         f"after event {i} {op}: user {u} is listed on unit {e}; their last live connection closed at "
-                        f"event {lost_at[u]} (registered at event {reg_at[(e, u)]})"))
+                        f"event {lost_at.get(u)} (registered at event {reg_at[(e, u)]}, last connected after event "
+                        f"{last_live[u]})"))
                 else:
                     found.setdefault(KNOWN_KEY, Failure(
                         KNOWN_KEY, where,
